@@ -766,6 +766,32 @@ pub fn run(ctx: &Ctx, prop: &str) -> Report {
         rep
     });
     stage("ribbon.very_long_creeping_press", r, &mut rep, t0);
+    // (a3) more than 2^16 presses and releases on the smallest buffers
+    if !small {
+        let t0 = std::time::Instant::now();
+        let r = par_shards(ctx, 2, |j| {
+            let mut rep = Report::new();
+            let rate = [100u32, 250][j];
+            let cfg = Cfg { rate, softpot: 20e3, dropper: 820.0, pullup: 1e6 };
+            let l = cfg.run_len() as u64;
+            let mut ops = Vec::new();
+            for k in 0..70_000u32 {
+                ops.push(Op::Poll(0.1 + 0.8 * ((k % 97) as f32 / 97.0) * cfg.boundary() as f32, l + (k % 3) as u64));
+                ops.push(Op::Poll(1.0, 1 + (k % 2) as u64));
+                if k % 5 == 0 {
+                    ops.push(Op::ReadPressed);
+                }
+                if k % 7 == 0 {
+                    ops.push(Op::ReadReleased);
+                }
+            }
+            let h = History { cfg, strict: false, ops };
+            run_and_record(&h, prop, &mut rep, false);
+            rep.count("ribbon.many_presses_histories", 1);
+            rep
+        });
+        stage("ribbon.many_presses", r, &mut rep, t0);
+    }
     // (b) many more histories on the cheap (small-buffer) rates
     let t0 = std::time::Instant::now();
     let n_hist = ctx.budget(4, 4_000, 300_000) as usize;
